@@ -87,6 +87,9 @@ CHECKS = {
  "C26": ("exploration", "law-checking run-time monitor over random vectors, plus LSH bucket determinism across hyperplane-cache states and 4 concurrent threads",
          "held on every generated input of the run: distance symmetry/non-negativity/zero-on-self/cosine range, quantisation error within one step, LSH buckets equal across cold/warm/evicted/regrown/concurrent cache states, probe sequences start at the bucket without repeats (lsh_probes monotone in Hamming distance), temporal predicate laws",
          "trusted: the cold-cache bucket as reference; Miri/TSan lanes are not part of this check", "3/C26"),
+ "C09": ("exploration", "round-trip and differential run-time monitor: print/parse round trip of generated rule texts; the same rule through engine / inline / session / persistent / restarted paths",
+         "held on every generated rule of the run: the printed rule parses back to the same AST; the answers through the inline-session, WebSocket-session, persistent and restarted-persistent paths equal the engine's answer on the original text (values with kind)",
+         "trusted: Debug form of ast::Rule for AST equality; the engine on the original text as reference", "3/C09"),
 }
 NOT_YET = "monitor not built yet in this round (design in DESIGN.md section 3); not claimed until a check exists"
 
